@@ -47,6 +47,12 @@ class Obj:
         return sym(self.name)
 
 
+class Atom(Obj):
+    """Abstract record with identity semantics: two Atoms are equal iff they are the same record, so equality and
+    membership tests on them are decided instead of becoming symbolic conditions (e.g. the distinct indices of a
+    concrete scenario)."""
+
+
 class Func:
     def __init__(self, node, frames, module, qual=None, bound=None):
         self.node, self.frames, self.module, self.qual, self.bound = node, frames, module, qual, bound
@@ -665,6 +671,8 @@ class Symex:
             self.unsupported(node, f"arithmetic on {type(a).__name__}, {type(b).__name__}")
 
     def compare(self, opname, a, b, node):
+        if isinstance(a, Atom) and opname in ("in", "not in") and isinstance(b, (list, tuple, set, frozenset, dict)):
+            return any(e is a for e in b) == (opname == "in")
         if isinstance(a, Ext):
             a = sym(a.name)
         if isinstance(b, Ext):
@@ -708,6 +716,8 @@ class Symex:
             self.unsupported(node, "comparison of unsupported values")
 
     def contains(self, coll, x, node):
+        if isinstance(x, Atom) and isinstance(coll, (list, tuple, set, frozenset, dict)):
+            return any(e is x for e in coll)
         if isinstance(coll, Obj):
             coll = coll.term
         if isinstance(x, Obj):
